@@ -10,7 +10,7 @@ Inductive tpl_item :=
 Inductive re :=
 | ReNull | ReEps
 | ReChr (c : ascii)
-| ReDot                 (* any character except a line terminator *)
+| ReDot                 (* any character (the runtime compiles the pattern with the s flag) *)
 | ReDigit
 | ReSeq (a b : re) | ReAlt (a b : re) | ReStar (a : re).
 
@@ -47,7 +47,7 @@ Fixpoint deriv (c : ascii) (r : re) : re :=
   match r with
   | ReNull => ReNull | ReEps => ReNull
   | ReChr d => if Ascii.eqb c d then ReEps else ReNull
-  | ReDot => if is_line_terminator c then ReNull else ReEps
+  | ReDot => ReEps
   | ReDigit => if is_digit c then ReEps else ReNull
   | ReSeq a b =>
       let l := re_seq (deriv c a) b in
@@ -80,8 +80,8 @@ Fixpoint tpl_item_re (i : tpl_item) : re :=
   | TplBoolean => ReAlt (re_lit "true") (re_lit "false")
   | TplConst s => re_lit s
   | TplOneOf vs =>
-      (* members whose expression is empty are filtered out of the alternation *)
-      opt_re
+      (* members whose expression is empty are filtered out of the alternation; they make the group optional *)
+      let body := opt_re
       ((fix alts (l : list tpl_item) : option re :=
          match l with
          | [] => None
@@ -91,7 +91,8 @@ Fixpoint tpl_item_re (i : tpl_item) : re :=
                   | None => Some (tpl_item_re x)
                   | Some r => Some (ReAlt (tpl_item_re x) r)
                   end
-         end) vs)
+         end) vs) in
+      if existsb tpl_item_source_empty vs then re_opt body else body
   end.
 
 Fixpoint tpl_re (items : list tpl_item) : re :=
